@@ -1,5 +1,8 @@
 import MdkVerif.Model.Store
 import MdkVerif.Proofs.Sort
+import MdkVerif.Model.MemLru
+import MdkVerif.Proofs.MemLru
+import MdkVerif.Proofs.MemLruVis
 /-
   C18 — Message listing is one total order; pages and last-message pointer agree.
   Property theorems only (helper lemmas live in Proofs/).
@@ -313,5 +316,512 @@ theorem ptr_tracks_head_partial (g : Group) (ms : List Msg)
         have := hhead m0 hm0
         simpa [createdFirstBefore, keyGt, key] using this
       rw [keyGt_total _ _ h2 h1]
+
+
+/-! ### 6. the pointer under the per-group message cap of the memory backend (`Model/MemLru.lean`)
+
+  At `max_messages_per_group` a new message pushes a stored one out.  The pointer keeps designating the head of the
+  default order only if the victim is never that head: since /repo 3a82aa4 the victim is the LAST message of the default
+  order (regenerated facts `memCapVictimKeys`, `memCapVictimIsMin`), so with a cap of at least 2 the head survives. -/
+
+open MdkVerif.MemLru
+
+/-- the eviction order re-extracted from the source IS the default listing order, ascending -/
+theorem cap_victim_chain : Generated.memCapVictimKeys = [0, 1, 2] ∧ Generated.memCapVictimIsMin = true := by decide
+
+theorem capLt_eq (a b : Msg) : capLt a b = keyGt (key b) (key a) := by
+  have h1 : Generated.memCapVictimKeys = [0, 1, 2] := cap_victim_chain.1
+  have h2 : Generated.memCapVictimIsMin = true := cap_victim_chain.2
+  simp only [capLt, h1, h2, if_true, chainLt, fieldOf, keyGt, key]
+  rw [Bool.eq_iff_iff]
+  simp
+  omega
+
+theorem argMin_none (lt : Msg → Msg → Bool) (l : List Msg) (h : argMin lt l = none) : l = [] := by
+  cases l with
+  | nil => rfl
+  | cons m t =>
+    simp only [argMin] at h
+    cases ha : argMin lt t with
+    | none => rw [ha] at h; cases h
+    | some b => rw [ha] at h; simp only [] at h; split at h <;> cases h
+
+/-- the victim is a stored message that no stored message precedes in the ascending default order -/
+theorem argMin_spec (l : List Msg) (v : Msg) (h : argMin capLt l = some v) :
+    v ∈ l ∧ ∀ x ∈ l, keyGt (key v) (key x) = false := by
+  induction l generalizing v with
+  | nil => cases h
+  | cons m t ih =>
+    simp only [argMin] at h
+    cases ha : argMin capLt t with
+    | none =>
+      rw [ha] at h; cases h
+      have := argMin_none _ _ ha; subst this
+      exact ⟨by simp, fun x hx => by simp at hx; subst hx; exact keyGt_irrefl _⟩
+    | some b =>
+      rw [ha] at h
+      simp only [] at h
+      obtain ⟨hb, hall⟩ := ih b ha
+      by_cases c : capLt b m = true
+      · rw [if_pos c] at h; cases h
+        rw [capLt_eq] at c
+        refine ⟨List.mem_cons_of_mem _ hb, fun x hx => ?_⟩
+        rcases List.mem_cons.mp hx with rfl | hx
+        · exact keyGt_asymm _ _ c
+        · exact hall x hx
+      · rw [if_neg c] at h; cases h
+        have c' : keyGt (key m) (key b) = false := by rw [capLt_eq] at c; simpa using c
+        refine ⟨by simp, fun x hx => ?_⟩
+        rcases List.mem_cons.mp hx with rfl | hx
+        · exact keyGt_irrefl _
+        · exact keyGt_negtrans _ _ _ c' (hall x hx)
+
+/-- `o` is the largest display key among `L` (`none`: there is no message) -/
+def MaxOf (o : Option (Nat × Nat × Nat)) (L : List Msg) : Prop :=
+  match o with
+  | none => L = []
+  | some q => (∃ m ∈ L, key m = q) ∧ ∀ m ∈ L, keyGt (key m) q = false
+
+/-- the head of the default listing is the message with the largest display key -/
+theorem head_of_maxOf (L : List Msg) (q : Nat × Nat × Nat) (h : MaxOf (some q) L) :
+    (sortBy createdFirstBefore L).head?.map key = some q := by
+  obtain ⟨⟨m0, hm0, hk0⟩, hall⟩ := h
+  have hperm := sortBy_perm createdFirstBefore L
+  have hsorted := sortBy_sorted createdFirst_strictWeak L
+  cases hs : sortBy createdFirstBefore L with
+  | nil =>
+    have := hperm.length_eq; rw [hs] at this
+    cases L with
+    | nil => cases hm0
+    | cons a t => simp at this
+  | cons h t =>
+    simp only [List.head?_cons, Option.map_some]
+    rw [hs] at hsorted hperm
+    have hmem : h ∈ L := hperm.mem_iff.mp (by simp)
+    have hhead : createdFirstBefore m0 h = false := by
+      have hm' : m0 ∈ h :: t := hperm.mem_iff.mpr hm0
+      rcases List.mem_cons.mp hm' with rfl | hm'
+      · by_cases c : createdFirstBefore m0 m0 = true
+        · have := createdFirst_strictWeak.asymm _ _ c; simp_all
+        · simpa using c
+      · exact (List.pairwise_cons.mp hsorted).1 m0 hm'
+    have h1 : keyGt (key h) q = false := hall h hmem
+    have h2 : keyGt q (key h) = false := by
+      rw [← hk0]; simpa [createdFirstBefore, keyGt, key] using hhead
+    rw [keyGt_total _ _ h2 h1]
+
+theorem upsertMsg_fresh (m : Msg) (l : List Msg) (h : ∀ x ∈ l, ¬ (x.gid = m.gid ∧ x.id = m.id)) : upsertMsg m l = l ++ [m] := by
+  induction l with
+  | nil => rfl
+  | cons a t ih =>
+    have ha : (a.gid == m.gid && a.id == m.id) = false := by
+      have := h a (by simp)
+      simpa using this
+    rw [upsertMsg_miss m a t ha, ih (fun x hx => h x (List.mem_cons_of_mem _ hx))]
+    rfl
+
+/-- what mdk-core does for a message it stores: save it, then update the group's pointer with it -/
+def trackedSave (s : MemStore) (m : Msg) : MemStore :=
+  (MemLru.updLastOp (MemLru.okErr (MemLru.saveMessage s m) s).1 m.gid (key m)).1
+
+/-- the group's messages after `save_message` of a NEW id -/
+def afterSave (s : MemStore) (m : Msg) : List Msg :=
+  (match (if capHit s m then victim (groupMsgs s.u m.gid) else none) with
+    | some v => (groupMsgs s.u m.gid).filter (fun x => x.id != v)
+    | none => groupMsgs s.u m.gid) ++ [m]
+
+theorem groupMsgs_append (u : Store) (l : List Msg) (m : Msg) (h : u.msgs = l ++ [m]) :
+    groupMsgs u m.gid = l.filter (·.gid == m.gid) ++ [m] := by
+  simp [groupMsgs, h, List.filter_append]
+
+theorem saveMessage_new (s : MemStore) (m : Msg) (g : Group) (hg : findGroup s.u m.gid = some g)
+    (hfresh : ∀ x ∈ s.u.msgs, ¬ (x.gid = m.gid ∧ x.id = m.id)) :
+    ∃ s1, MemLru.saveMessage s m = some s1 ∧ GFrame s1 s ∧ groupMsgs s1.u m.gid = afterSave s m := by
+  have hfg : ¬ (findGroup s.u m.gid).isNone = true := by rw [hg]; simp
+  by_cases cq : m.gid ∈ s.qMsgGroups
+  · have heq := saveMessage_eq s m
+    rw [if_neg hfg, if_pos cq] at heq
+    refine ⟨_, heq, gframe_saveMessage s m _ heq, ?_⟩
+    rw [(putById_frame _ _).1]
+    show groupMsgs { (capEvict s m).u with msgs := upsertMsg m (capEvict s m).u.msgs } m.gid = afterSave s m
+    have hce := capEvict_msgs s m
+    unfold afterSave
+    cases hv : (if capHit s m then victim (groupMsgs s.u m.gid) else none) with
+    | none =>
+      rw [hv] at hce
+      simp only [] at hce ⊢
+      rw [groupMsgs_append _ s.u.msgs m (by show upsertMsg m (capEvict s m).u.msgs = _; rw [hce]; exact upsertMsg_fresh m _ hfresh)]
+      rfl
+    | some v =>
+      rw [hv] at hce
+      simp only [] at hce ⊢
+      have hf2 : ∀ x ∈ s.u.msgs.filter (fun x => !(x.gid == m.gid && x.id == v)), ¬ (x.gid = m.gid ∧ x.id = m.id) :=
+        fun x hx => hfresh x (List.mem_filter.mp hx).1
+      rw [groupMsgs_append _ _ m (by show upsertMsg m (capEvict s m).u.msgs = _; rw [hce]; exact upsertMsg_fresh m _ hf2)]
+      congr 1
+      simp only [groupMsgs, List.filter_filter]
+      apply List.filter_congr
+      intro x _
+      cases h1 : (x.gid == m.gid) <;> cases h2 : (x.id == v) <;> simp [h2, bne]
+  · have heq := saveMessage_eq s m
+    rw [if_neg hfg, if_neg cq] at heq
+    refine ⟨_, heq, gframe_saveMessage s m _ heq, ?_⟩
+    rw [(putById_frame _ _).1]
+    have ch' : capHit s m = false := by simp [capHit, cq]
+    unfold afterSave
+    rw [ch']
+    simp only [Bool.false_eq_true, if_false]
+    -- the fresh map is put: whatever that pushes out is another group's map
+    show groupMsgs (putMsgGroups { s with u := { s.u with msgs := upsertMsg m s.u.msgs } } m.gid).u m.gid = _
+    unfold putMsgGroups
+    simp only []
+    cases hq : (Lru.qTouch s.cap m.gid s.qMsgGroups).2 with
+    | none =>
+      simp only []
+      rw [groupMsgs_append _ s.u.msgs m (upsertMsg_fresh m _ hfresh)]
+      rfl
+    | some e =>
+      simp only []
+      obtain ⟨_, _, hlast, _⟩ := Lru.qTouch_evicted s.cap m.gid s.qMsgGroups e hq
+      have hne : e ≠ m.gid := fun c => cq (c ▸ List.mem_of_getLast? hlast)
+      simp only [groupMsgs, upsertMsg_fresh m _ hfresh, List.filter_filter]
+      rw [show (s.u.msgs ++ [m]).filter (fun a => (a.gid == m.gid) && (a.gid != e)) = (s.u.msgs ++ [m]).filter (fun a => a.gid == m.gid) from by
+        apply List.filter_congr
+        intro x _
+        by_cases c1 : x.gid = m.gid
+        · simp [c1, Ne.symm hne]
+        · simp [c1]]
+      simp [List.filter_append]
+
+
+/-- the record passes the memory backend's validation (true of every record it stores) -/
+def GroupWithin (g : Group) : Prop :=
+  g.nameLen ≤ nameLimit .mem ∧ g.descLen ≤ descLimit .mem ∧ g.admins ≤ Generated.memMaxAdminsPerGroup
+
+theorem storeSaveGroup_ok (u : Store) (g : Group) (hb : u.backend = .mem) (hl : GroupWithin g)
+    (hnc : ∀ o, alookup g.nid u.byNid = some o → o.gid = g.gid) : ∃ u', Store.saveGroup u g = some u' := by
+  obtain ⟨h1, h2, h3⟩ := hl
+  unfold Store.saveGroup
+  have n1 : ¬ g.nameLen > nameLimit u.backend := by rw [hb]; omega
+  have n2 : ¬ g.descLen > descLimit u.backend := by rw [hb]; omega
+  have n3 : ¬ (u.backend == Backend.mem && decide (g.admins > Generated.memMaxAdminsPerGroup)) = true := by
+    simp only [hb, Bool.and_eq_true, decide_eq_true_eq]; intro c; omega
+  rw [if_neg n1, if_neg n2, if_neg n3]
+  simp only [hb]
+  cases hl : alookup g.nid u.byNid with
+  | none => exact ⟨_, rfl⟩
+  | some o =>
+    have : (o.gid != g.gid) = false := by simp [hnc o hl]
+    simp only [this]
+    exact ⟨_, rfl⟩
+
+theorem updLast_fields (g : Group) (k : Nat × Nat × Nat) :
+    (updLast g k).gid = g.gid ∧ (updLast g k).nid = g.nid ∧ (GroupWithin g → GroupWithin (updLast g k)) := by
+  unfold updLast
+  split
+  · exact ⟨rfl, rfl, fun h => h⟩
+  · exact ⟨rfl, rfl, fun h => h⟩
+
+/-- the pointer update of a held group always goes through, evicts nothing and touches no message -/
+theorem updLast_tracked (s : MemStore) (h : PInv s) (gid : Nat) (g : Group) (hg : findGroup s.u gid = some g)
+    (hl : GroupWithin g) (k : Nat × Nat × Nat) :
+    ∃ s', MemLru.saveGroup s (updLast g k) = some s' ∧ findGroup s'.u gid = some (updLast g k) ∧
+      s'.u.msgs = s.u.msgs ∧ PInv s' ∧ s'.msgCap = s.msgCap := by
+  obtain ⟨f1, f2, f3⟩ := updLast_fields g k
+  have hgg : g.gid = gid := findGroup_gid hg
+  have hmem : g ∈ s.u.groups := ((find_gid_iff h.paired.ginv gid g).mp hg).1
+  have hnc : ∀ o, alookup (updLast g k).nid s.u.byNid = some o → o.gid = (updLast g k).gid := by
+    intro o ho
+    rw [f2] at ho
+    have hi : alookup g.nid s.u.byNid = s.u.groups.find? (·.nid == g.nid) := h.paired.idx g.nid
+    have : s.u.groups.find? (·.nid == g.nid) = some g := (find_nid_iff h.paired.ginv g.nid g).mpr ⟨hmem, rfl⟩
+    rw [hi, this] at ho
+    cases ho; exact f1.symm
+  obtain ⟨u', hu'⟩ := storeSaveGroup_ok s.u (updLast g k) h.hb (f3 hl) hnc
+  have hs := saveGroup_eq s (updLast g k) u' hu'
+  obtain ⟨e1, e2, e3, e4, e5, e6, e7⟩ := of_saveGroup s (updLast g k) _ h.hb hs
+  have hu := saveGroup_mem_some s.u u' (updLast g k) h.hb hu'
+  -- both queues hold the keys already: nothing is pushed out
+  have hq1 : gid ∈ s.qGroups := (h.paired.qmem gid).mpr ⟨g, hmem, hgg⟩
+  have hstale : staleQ s (updLast g k) = s.qByNid := by
+    unfold staleQ
+    rw [f1, hgg, hg]
+    simp [f2]
+  have hq2 : g.nid ∈ s.qByNid := by
+    have hp : s.qByNid = s.qGroups.map (nidOf s.u.groups) := h.paired.pair
+    rw [hp]
+    refine List.mem_map.mpr ⟨gid, hq1, ?_⟩
+    rw [← hgg]; exact nidOf_of_mem h.paired.ginv hmem
+  have t1 := Lru.qTouch_none s.cap (updLast g k).gid s.qGroups (Or.inl (by rw [f1, hgg]; exact hq1))
+  have t2 := Lru.qTouch_none s.cap (updLast g k).nid (staleQ s (updLast g k)) (Or.inl (by rw [hstale, f2]; exact hq2))
+  refine ⟨_, hs, ?_, e7, pinv_saveGroup s h _ _ hs, e6⟩
+  rw [putGroups_room { s with u := u', qByNid := staleQ s (updLast g k) } (updLast g k).gid t1, putByNid_room _ (updLast g k).nid t2]
+  show findGroup u' gid = _
+  rw [hu, ← hgg, ← f1]
+  exact find_replaceGroup_self _ _
+
+theorem id_inj_of_nodup (L : List Msg) (h : (L.map (·.id)).Nodup) (a b : Msg) (ha : a ∈ L) (hb : b ∈ L) (e : a.id = b.id) : a = b := by
+  induction L with
+  | nil => cases ha
+  | cons x t ih =>
+    simp only [List.map_cons, List.nodup_cons, List.mem_map, not_exists, not_and] at h
+    rcases List.mem_cons.mp ha with rfl | ha' <;> rcases List.mem_cons.mp hb with rfl | hb'
+    · rfl
+    · exact absurd e.symm (h.1 b hb')
+    · exact absurd e (h.1 a ha')
+    · exact ih h.2 ha' hb'
+
+/-- removing the LAST message of the default order from at least two messages keeps the largest key -/
+theorem maxOf_evict (L : List Msg) (o : Option (Nat × Nat × Nat)) (hmax : MaxOf o L) (hnd : (L.map (·.id)).Nodup)
+    (v : Msg) (hv : argMin capLt L = some v) (h2 : 2 ≤ L.length) :
+    MaxOf o (L.filter (fun x => x.id != v.id)) := by
+  obtain ⟨hvm, hvmin⟩ := argMin_spec L v hv
+  cases o with
+  | none =>
+    have : L = [] := hmax
+    rw [this] at h2; simp at h2
+  | some q =>
+    obtain ⟨⟨mq, hmq, hkq⟩, hall⟩ := hmax
+    have hne : mq.id ≠ v.id := by
+      intro e
+      have hmv : mq = v := id_inj_of_nodup L hnd mq v hmq hvm e
+      subst hmv
+      -- every message has the key of `mq`, hence is `mq`: at most one message
+      have hallEq : ∀ x ∈ L, x = mq := by
+        intro x hx
+        have k1 := hall x hx
+        have k2 := hvmin x hx
+        rw [hkq] at k2
+        have : key x = q := keyGt_total _ _ k1 k2
+        have hid : x.id = mq.id := by
+          have := congrArg (fun t => t.2.2) (this.trans hkq.symm)
+          simpa [key] using this
+        exact id_inj_of_nodup L hnd x mq hx hmq hid
+      cases L with
+      | nil => cases hmq
+      | cons a t =>
+        cases t with
+        | nil => simp at h2
+        | cons b t' =>
+          have ha := hallEq a (by simp)
+          have hb := hallEq b (by simp)
+          simp only [List.map_cons, List.nodup_cons, List.mem_cons] at hnd
+          exact hnd.1 (Or.inl (by rw [ha, hb]))
+    refine ⟨⟨mq, List.mem_filter.mpr ⟨hmq, by simpa using hne⟩, hkq⟩, fun x hx => hall x (List.mem_filter.mp hx).1⟩
+
+/-- a new message joins: the largest key is the larger of the old largest key and the new key -/
+theorem maxOf_add (L : List Msg) (o : Option (Nat × Nat × Nat)) (hmax : MaxOf o L) (m : Msg) :
+    MaxOf (omax o (key m)) (L ++ [m]) := by
+  cases o with
+  | none =>
+    have : L = [] := hmax
+    subst this
+    exact ⟨⟨m, by simp, rfl⟩, fun x hx => by simp at hx; subst hx; exact keyGt_irrefl _⟩
+  | some q =>
+    obtain ⟨⟨mq, hmq, hkq⟩, hall⟩ := hmax
+    by_cases c : keyGt (key m) q = true
+    · simp only [omax, c, if_true]
+      refine ⟨⟨m, by simp, rfl⟩, fun x hx => ?_⟩
+      rcases List.mem_append.mp hx with hx | hx
+      · exact keyGt_negtrans _ _ _ (hall x hx) (keyGt_asymm _ _ c)
+      · simp at hx; subst hx; exact keyGt_irrefl _
+    · have c' : keyGt (key m) q = false := by simpa using c
+      simp only [omax, c', Bool.false_eq_true, if_false]
+      refine ⟨⟨mq, by simp [hmq], hkq⟩, fun x hx => ?_⟩
+      rcases List.mem_append.mp hx with hx | hx
+      · exact hall x hx
+      · simp at hx; subst hx; exact c'
+
+/-- the invariant of tracked saves on one group of the capped memory backend -/
+structure PtrInv (s : MemStore) (gid : Nat) : Prop where
+  pinv : PInv s
+  grp : ∃ g, findGroup s.u gid = some g ∧ PtrWF g ∧ GroupWithin g ∧ MaxOf (ptr g) (groupMsgs s.u gid)
+  nd : ((groupMsgs s.u gid).map (·.id)).Nodup
+
+theorem trackedSave_inv (s : MemStore) (gid : Nat) (h : PtrInv s gid) (hcap : 2 ≤ s.msgCap) (m : Msg) (hm : m.gid = gid)
+    (hfresh : ∀ x ∈ groupMsgs s.u gid, x.id ≠ m.id) :
+    PtrInv (trackedSave s m) gid ∧ (trackedSave s m).msgCap = s.msgCap ∧
+      ∀ x ∈ groupMsgs (trackedSave s m).u gid, x = m ∨ x ∈ groupMsgs s.u gid := by
+  subst hm
+  obtain ⟨g, hg, hwf, hl, hmax⟩ := h.grp
+  have hfresh' : ∀ x ∈ s.u.msgs, ¬ (x.gid = m.gid ∧ x.id = m.id) := by
+    rintro x hx ⟨e1, e2⟩
+    exact hfresh x (List.mem_filter.mpr ⟨hx, by simpa using e1⟩) e2
+  obtain ⟨s1, hs1, hf, hms⟩ := saveMessage_new s m g hg hfresh'
+  have hg1 : findGroup s1.u m.gid = some g := by
+    have : s1.u.groups = s.u.groups := congrArg GI.groups hf.gi
+    simp only [findGroup, this]; exact hg
+  have hp1 : PInv s1 := pinv_frame s s1 h.pinv hf
+  obtain ⟨s2, hs2, hg2, hmsgs, hp2, hmc⟩ := updLast_tracked s1 hp1 m.gid g hg1 hl (key m)
+  have ets : trackedSave s m = s2 := by
+    simp only [trackedSave, hs1, MemLru.okErr, MemLru.updLastOp, hg1, hs2]
+  have hgm2 : groupMsgs s2.u m.gid = afterSave s m := by
+    simp only [groupMsgs, hmsgs]; exact hms
+  -- the stored messages after the save, and their largest key
+  have hafter : MaxOf (omax (ptr g) (key m)) (afterSave s m) ∧ ((afterSave s m).map (·.id)).Nodup ∧
+      ∀ x ∈ afterSave s m, x = m ∨ x ∈ groupMsgs s.u m.gid := by
+    unfold afterSave
+    cases hv : (if capHit s m then victim (groupMsgs s.u m.gid) else none) with
+    | none =>
+      simp only []
+      refine ⟨maxOf_add _ _ hmax m, ?_, ?_⟩
+      · rw [List.map_append, List.nodup_append]
+        refine ⟨h.nd, by simp, ?_⟩
+        intro a ha b hb
+        simp at hb; subst hb
+        obtain ⟨x, hx, rfl⟩ := List.mem_map.mp ha
+        exact hfresh x hx
+      · intro x hx
+        rcases List.mem_append.mp hx with hx | hx
+        · exact Or.inr hx
+        · simp at hx; exact Or.inl hx
+    | some vid =>
+      simp only []
+      have hch : capHit s m = true := by
+        by_cases c : capHit s m = true
+        · exact c
+        · rw [if_neg c] at hv; cases hv
+      rw [if_pos hch] at hv
+      obtain ⟨v, hva, hvid⟩ : ∃ v, argMin capLt (groupMsgs s.u m.gid) = some v ∧ v.id = vid := by
+        unfold victim at hv
+        cases ha : argMin capLt (groupMsgs s.u m.gid) with
+        | none => rw [ha] at hv; cases hv
+        | some v => rw [ha] at hv; exact ⟨v, rfl, by simpa using hv⟩
+      have hlen : 2 ≤ (groupMsgs s.u m.gid).length := by
+        simp only [capHit, Bool.and_eq_true, decide_eq_true_eq] at hch
+        omega
+      subst hvid
+      refine ⟨maxOf_add _ _ (maxOf_evict _ _ hmax h.nd v hva hlen) m, ?_, ?_⟩
+      · rw [List.map_append, List.nodup_append]
+        refine ⟨h.nd.sublist (List.Sublist.map _ List.filter_sublist), by simp, ?_⟩
+        intro a ha b hb
+        simp at hb; subst hb
+        obtain ⟨x, hx, rfl⟩ := List.mem_map.mp ha
+        exact hfresh x (List.mem_filter.mp hx).1
+      · intro x hx
+        rcases List.mem_append.mp hx with hx | hx
+        · exact Or.inr (List.mem_filter.mp hx).1
+        · simp at hx; exact Or.inl hx
+  rw [ets]
+  refine ⟨⟨hp2, ⟨updLast g (key m), hg2, updLast_wf g _ hwf, (updLast_fields g _).2.2 hl, ?_⟩, by rw [hgm2]; exact hafter.2.1⟩,
+    hmc.trans hf.mcap, by rw [hgm2]; exact hafter.2.2⟩
+  rw [hgm2]
+  have hptr : ptr (updLast g (key m)) = omax (ptr g) (key m) := by
+    rw [updLast_max g (key m) hwf]; cases ptr g <;> rfl
+  rw [hptr]; exact hafter.1
+
+
+theorem ptrInv_head (s : MemStore) (gid : Nat) (h : PtrInv s gid) :
+    ∃ g, findGroup s.u gid = some g ∧ ptr g = (listing s.u gid 0).head?.map key := by
+  obtain ⟨g, hg, _, _, hmax⟩ := h.grp
+  refine ⟨g, hg, ?_⟩
+  have hl : listing s.u gid 0 = sortBy createdFirstBefore (groupMsgs s.u gid) := by simp [listing, orderOf]
+  rw [hl]
+  cases hp : ptr g with
+  | none =>
+    rw [hp] at hmax
+    have : groupMsgs s.u gid = [] := hmax
+    rw [this]; rfl
+  | some q =>
+    rw [hp] at hmax
+    exact (head_of_maxOf _ q hmax).symm
+
+theorem trackedRun_inv (ms : List Msg) : ∀ (s0 : MemStore) (gid : Nat), PtrInv s0 gid → 2 ≤ s0.msgCap →
+    (∀ m ∈ ms, m.gid = gid) → (ms.map (·.id)).Nodup → (∀ x ∈ groupMsgs s0.u gid, x.id ∉ ms.map (·.id)) →
+    PtrInv (ms.foldl trackedSave s0) gid := by
+  induction ms with
+  | nil => intro s0 gid h _ _ _ _; exact h
+  | cons m t ih =>
+    intro s0 gid h hcap hg hnd hfresh
+    simp only [List.map_cons, List.nodup_cons] at hnd
+    have hf0 : ∀ x ∈ groupMsgs s0.u gid, x.id ≠ m.id := fun x hx e => hfresh x hx (by simp [e])
+    obtain ⟨h1, h2, h3⟩ := trackedSave_inv s0 gid h hcap m (hg m (by simp)) hf0
+    simp only [List.foldl_cons]
+    refine ih _ gid h1 (by rw [h2]; exact hcap) (fun x hx => hg x (List.mem_cons_of_mem _ hx)) hnd.2 ?_
+    intro x hx
+    rcases h3 x hx with rfl | hx'
+    · exact hnd.1
+    · intro c; exact hfresh x hx' (by simp [c])
+
+/-- **the pointer under the message cap.**  On the memory backend with its LRU caches and
+    `max_messages_per_group ≥ 2`, from any state in which group `gid` is held with a pointer that designates the head
+    of its stored messages (`PtrInv`: in particular a fresh group), for EVERY history of tracked saves of new message
+    ids to that group — any number of them, any timestamps incl. equal seconds, far beyond the cap — the pointer of
+    the stored record designates the first message of the default order among the messages the group still holds:
+    the eviction never removes the head. -/
+theorem ptr_tracks_head_capped (s0 : MemStore) (gid : Nat) (h0 : PtrInv s0 gid) (hcap : 2 ≤ s0.msgCap) (ms : List Msg)
+    (hg : ∀ m ∈ ms, m.gid = gid) (hnd : (ms.map (·.id)).Nodup) (hfresh : ∀ x ∈ groupMsgs s0.u gid, x.id ∉ ms.map (·.id)) :
+    ∃ g, findGroup (ms.foldl trackedSave s0).u gid = some g ∧
+      ptr g = (listing (ms.foldl trackedSave s0).u gid 0).head?.map key :=
+  ptrInv_head _ gid (trackedRun_inv ms s0 gid h0 hcap hg hnd hfresh)
+
+/-- a group saved into a fresh backend satisfies the invariant -/
+theorem ptrInv_fresh (cap msgCap : Nat) (hcap : 0 < cap) (g0 : Group) (hl : GroupWithin g0)
+    (hp : g0.lastAt = none ∧ g0.lastProc = none ∧ g0.lastId = none) :
+    ∃ s0, MemLru.saveGroup (MemStore.empty cap msgCap) g0 = some s0 ∧ PtrInv s0 g0.gid ∧ s0.msgCap = msgCap ∧
+      groupMsgs s0.u g0.gid = [] := by
+  have hpe := pinv_empty cap msgCap hcap
+  obtain ⟨u', hu'⟩ := storeSaveGroup_ok (MemStore.empty cap msgCap).u g0 rfl hl (fun o ho => by cases ho)
+  have hs := saveGroup_eq (MemStore.empty cap msgCap) g0 u' hu'
+  have hu := saveGroup_mem_some _ u' g0 rfl hu'
+  obtain ⟨_, _, _, _, _, e6, e7⟩ := of_saveGroup _ g0 _ rfl hs
+  have t1 := Lru.qTouch_none cap g0.gid ([] : List Nat) (Or.inr hcap)
+  have t2 := Lru.qTouch_none cap g0.nid ([] : List Nat) (Or.inr hcap)
+  have hfind : findGroup (putByNid (putGroups { MemStore.empty cap msgCap with u := u', qByNid := staleQ (MemStore.empty cap msgCap) g0 } g0.gid) g0.nid).u g0.gid = some g0 := by
+    rw [putGroups_room { MemStore.empty cap msgCap with u := u', qByNid := staleQ (MemStore.empty cap msgCap) g0 } g0.gid t1,
+      putByNid_room _ g0.nid t2]
+    show findGroup u' g0.gid = _
+    rw [hu]; exact find_replaceGroup_self _ _
+  have hm : groupMsgs (putByNid (putGroups { MemStore.empty cap msgCap with u := u', qByNid := staleQ (MemStore.empty cap msgCap) g0 } g0.gid) g0.nid).u g0.gid = [] := by
+    simp only [groupMsgs, e7]; rfl
+  refine ⟨_, hs, ⟨pinv_saveGroup _ hpe g0 _ hs, ⟨g0, hfind, Or.inl hp, hl, ?_⟩, by rw [hm]; exact List.nodup_nil⟩, e6, hm⟩
+  have : ptr g0 = none := by simp [ptr, hp.1]
+  rw [this, hm]; rfl
+
+/-- non-vacuity and regression: cap 2, three messages of the same second saved in turn — the listing keeps ids 2 and 3,
+    the pointer designates 3 (before /repo 3a82aa4 the map's iteration order decided, and listing [1, 3] with the
+    pointer at 2 was possible) -/
+def capGroup : Group :=
+  { gid := 1, nid := 11, nameLen := 3, descLen := 0, admins := 1, img := 0, lastId := none, lastAt := none,
+    lastProc := none, epoch := 0, state := 0, selfUpd := 0 }
+def capMsg (id created processed : Nat) : Msg :=
+  { id := id, gid := 1, pk := 0, kind := 9, created := created, processed := processed, content := 1, contentLen := 8,
+    tag := 0, wrapper := id, epoch := some 1, state := 1 }
+def capStart (cap msgCap : Nat) : MemStore := (MemLru.okErr (MemLru.saveGroup (MemStore.empty cap msgCap) capGroup) (MemStore.empty cap msgCap)).1
+
+theorem witness_equal_seconds_at_cap :
+    let s := [capMsg 1 5 5, capMsg 2 5 5, capMsg 3 5 5].foldl trackedSave (capStart 4 2)
+    (listing s.u 1 0).map (·.id) = [3, 2] ∧ (findGroup s.u 1).map ptr = some (some (5, 5, 3)) := by decide
+
+/-- the hypothesis `2 ≤ max_messages_per_group` is needed: with a cap of ONE a new message that is OLDER than the
+    stored one evicts the stored message — the head of the order — and the pointer keeps designating the message that
+    is gone (`mem-cap-1-evicts-pointer-target`; corpus/C18/lru_cap1_pointer.trace) -/
+theorem witness_cap_one_evicts_head :
+    let s := [capMsg 1 200 200, capMsg 2 100 100].foldl trackedSave (capStart 4 1)
+    (listing s.u 1 0).map (·.id) = [2] ∧ (findGroup s.u 1).map ptr = some (some (200, 200, 1)) ∧
+    findMessage s.u 1 1 = none := by decide
+
+def ptr_tracks_head_capped_full : Prop :=
+  ∀ (s0 : MemStore) (gid : Nat), PtrInv s0 gid → ∀ ms : List Msg, (∀ m ∈ ms, m.gid = gid) → (ms.map (·.id)).Nodup →
+    (∀ x ∈ groupMsgs s0.u gid, x.id ∉ ms.map (·.id)) →
+    ∃ g, findGroup (ms.foldl trackedSave s0).u gid = some g ∧ ptr g = (listing (ms.foldl trackedSave s0).u gid 0).head?.map key
+
+theorem ptr_tracks_head_capped_full_false : ¬ ptr_tracks_head_capped_full := by
+  intro h
+  obtain ⟨s0, hs0, hinv, _, hm⟩ := ptrInv_fresh 4 1 (by decide) capGroup (by unfold GroupWithin; decide) ⟨rfl, rfl, rfl⟩
+  have e : s0 = capStart 4 1 := by simp only [capStart, hs0, MemLru.okErr]
+  subst e
+  have hm' : groupMsgs (capStart 4 1).u 1 = [] := hm
+  have hfr : ∀ x ∈ groupMsgs (capStart 4 1).u 1, x.id ∉ [capMsg 1 200 200, capMsg 2 100 100].map (·.id) := by
+    rw [hm']; intro x hx; cases hx
+  obtain ⟨g, hg, hp⟩ := h _ 1 hinv [capMsg 1 200 200, capMsg 2 100 100] (by decide) (by decide) hfr
+  have w := witness_cap_one_evicts_head
+  simp only at w
+  rw [hg] at w
+  simp only [Option.map_some, Option.some.injEq] at w
+  rw [w.2.1] at hp
+  have hl : (listing (List.foldl trackedSave (capStart 4 1) [capMsg 1 200 200, capMsg 2 100 100]).u 1 0).head?.map key = some (100, 100, 2) := by decide
+  rw [hl] at hp
+  cases hp
 
 end MdkVerif.Props.C18
